@@ -99,8 +99,12 @@ RESOLVERS = ["none", "none", "plus", "neg"]
 RESOLVER_KINDS = ["fn", "method", "partial", "falsy", "nolen", "memo"]
 
 
-def pick_resolver(rng):
+def pick_resolver(rng, failing=0.25):
     r = rng.choice(RESOLVERS)
+    if r != "none" and rng.random() < failing:
+        # a resolver that RAISES KeyError for every id d with d % m == k (stale docids missing from the object map)
+        m = rng.choice([2, 3, 3, 4])
+        r += "/%d/%d" % (m, rng.randrange(m))
     if r != "none" and rng.random() < 0.6:
         return r + ":" + rng.choice(RESOLVER_KINDS)
     return r
@@ -171,6 +175,8 @@ def gen_new(rng, slot):
     return ["new", slot, kind, num, pick_resolver(rng)] + ids
 
 
+HANDLE_P = 0.08       # per operation: a block "keep all()/iter(), call other methods, loop over it afterwards"
+INFLIGHT_P = 0.04     # per operation: a block of 2-3 sorted results read alternately
 BIG_EVERY = 100      # one case in BIG_EVERY is a large chained sort (see gen_big)
 BIG_SIZES = [300, 600, 1023, 1024, 1025, 1100, 1500, 1500, 2048, 3000]
 
@@ -270,12 +276,106 @@ def gen(rng, tier, idx):
             size[s] = len(cmds[-1]) - 5
         slots.append(s)
     last_sorted = None
+    nhandle = [0]
+
+    def new_sort(src, i=None, st=None, rev=None, lim=None):
+        dst = fresh()
+        cmds.append(["new", dst, "list", "auto", "none"])      # dst exists even if the sort raises
+        if lim is None:
+            lim = rng.choice(["none"] * 7 + [1, 2, 3, 5, 11, 12, 13, 100, 0])
+        if st is None:
+            st = "none" if rng.random() < 0.6 else rng.choice(STYPES)
+        cmds.append(["sort", src, dst, rng.randrange(nidx) if i is None else i,
+                     rng.randrange(2) if rev is None else rev, lim, st, 1 if rng.random() < 0.7 else 0])
+        slots.append(dst)
+        size[dst] = size.get(src, 0) if lim in ("none", 0) else min(size.get(src, 0), lim)
+        return dst
+
+    def handle_block(s):
+        """take `docs = rs.all()` / `it = iter(rs)`, call other methods, loop over the kept object afterwards"""
+        if rng.random() < 0.4:
+            s = new_sort(s, lim="none" if rng.random() < 0.7 else None)      # a lazily sorted result
+        hs = []
+
+        def take_handle():
+            h = nhandle[0]
+            nhandle[0] += 1
+            cmds.append(["hall", s, h, rng.choice([0, 1, 1, 1])] if rng.random() < 0.6 else ["hiter", s, h])
+            hs.append(h)
+        if rng.random() < 0.25:
+            cmds.append(["first", s, rng.choice([0, 1])])
+        take_handle()
+        for _ in range(rng.choice([0, 1, 1, 1, 2, 3])):
+            q = rng.random()
+            if q < 0.45:
+                cmds.append(["first", s, rng.choice([0, 1, 1])])
+            elif q < 0.53:
+                cmds.append(["one", s, rng.choice([0, 1, 1])])
+            elif q < 0.58:
+                cmds.append(["len", s])
+            elif q < 0.74:
+                new_sort(s)
+            elif q < 0.81:
+                cmds.append(["take", s, rng.choice([0, 1, 2])])
+            elif q < 0.85:
+                cmds.append(["iter", s])
+            elif q < 0.93:
+                take_handle()
+            else:
+                dst = fresh()
+                cmds.append(["new", dst, "list", "auto", "none"])
+                cmds.append(["intersect", s, dst, rng.choice(COLL_KINDS)] + rng.sample(POOL + [20], rng.randrange(0, 13)))
+                slots.append(dst)
+        rng.shuffle(hs)
+        for h in hs:
+            if rng.random() < 0.25:
+                cmds.append(["htake", h, rng.choice([0, 1, 2])])
+                if rng.random() < 0.5:
+                    cmds.append(["first", s, rng.choice([0, 1])])
+            cmds.append(["hdrain", h])
+        if rng.random() < 0.5:
+            cmds.append(["first", s, 1])
+            cmds.append(["iter", s])
+        if rng.random() < 0.15:
+            cmds.append(["hdrain", hs[0]])     # the same object once more
+
+    def inflight_block():
+        """2-3 sorted results of (mostly) the same index kept unread, then read alternately / one id first and the
+        rest after another sort / in reverse creation order"""
+        i = rng.randrange(nidx)
+        ds = []
+        same_src = pick(True) if rng.random() < 0.5 else None
+        for k in range(rng.choice([2, 2, 3])):
+            fw = rng.random() < 0.6
+            d = new_sort(same_src if same_src is not None else pick(True), i=i if rng.random() < 0.85 else None,
+                         st=rng.choice(["none", "none", "fwscan", "optimal"]) if fw else None,
+                         rev=0 if fw else None, lim="none" if rng.random() < 0.6 else None)
+            ds.append(d)
+            for _ in range(rng.choice([0, 1, 1, 2])):
+                g = rng.choice(ds)
+                cmds.append(rng.choice([["first", g, rng.choice([0, 1])], ["take", g, rng.choice([1, 1, 2, 3])]]))
+        for _ in range(rng.choice([0, 2, 4, 6])):
+            g = rng.choice(ds)
+            cmds.append(rng.choice([["first", g, 0], ["take", g, rng.choice([1, 2, 3])], ["take", g, 1]]))
+        if rng.random() < 0.5:
+            ds.reverse()
+        for g in ds:
+            cmds.append(["iter", g])
+        return ds[-1]
+
     for _ in range(rng.randrange(10, 31)):
         r = rng.random()
         s = pick(rng.random() < 0.7)
         if last_sorted is not None and rng.random() < 0.3:
             s = last_sorted
         res = rng.choice([0, 1, 1])
+        if r < HANDLE_P:
+            handle_block(s)
+            continue
+        if r < HANDLE_P + INFLIGHT_P:
+            last_sorted = inflight_block()
+            continue
+        r = (r - HANDLE_P - INFLIGHT_P) / (1 - HANDLE_P - INFLIGHT_P)
         if r < 0.20:
             cmds.append(["first", s, res])
         elif r < 0.30:
@@ -349,6 +449,7 @@ class Impl(object):
         self.FieldIndex = FieldIndex
         self.idx = {}
         self.slots = {}
+        self.handles = {}
 
     def index(self, i):
         if i not in self.idx:
@@ -358,12 +459,21 @@ class Impl(object):
     def resolver(self, name):
         import functools
         fname, _, kind = str(name).partition(":")
+        fname, _, stale = fname.partition("/")
         if fname == "plus":
-            f = lambda d: Obj(d + 1000)
+            g = lambda d: Obj(d + 1000)
         elif fname == "neg":
-            f = lambda d: Obj(-d - 1)
+            g = lambda d: Obj(-d - 1)
         else:
             return None
+        f = g
+        if stale:
+            m, k = (int(x) for x in stale.split("/"))
+
+            def f(d):
+                if d % m == k:
+                    raise KeyError(d)       # the object map no longer has this docid
+                return g(d)
         if kind == "":
             return f
         if kind == "fn":
@@ -428,6 +538,8 @@ class Impl(object):
                 out.append(show(x))
         except Unsortable as e:
             return "[%s] err Unsortable %s" % (" ".join(out), idset(set(e.docids)))
+        except Exception as e:      # the resolver's own error: the loop ends there
+            return "[%s] %s" % (" ".join(out), exc_name(e))
         return "[%s] ok" % " ".join(out)
 
     def err(self, e):
@@ -466,7 +578,18 @@ class Impl(object):
             res = self.resolver(c[3])
             self.slots[c[1]] = q.execute(resolver=res) if res is not None else q.execute()
             return "ok"
+        if op == "hdrain":
+            return self.drain(self.handles[c[1]])
+        if op == "htake":
+            return self.drain(itertools.islice(self.handles[c[1]], c[2]))
         rs = self.slots[c[1]]
+        if op == "hall":
+            # only taken here, looped over later
+            self.handles[c[2]] = rs.all(resolve=False) if not c[3] else rs.all()
+            return "ok"
+        if op == "hiter":
+            self.handles[c[2]] = iter(rs)
+            return "ok"
         try:
             if op == "first":
                 return show(rs.first(resolve=bool(c[2])) if not c[2] else rs.first())
@@ -540,6 +663,15 @@ def resolver_kind(tok):
     return "none" if fname == "none" else (kind or "lambda")
 
 
+def classify(case, i, impl, model, spec):
+    """D25: the object all()/iter() handed out IS the one-shot `ids` (no resolver / resolve=False); first() pulls
+    from it and re-chains only its own `ids`.  The model mirrors the code (I = M); the property's answer is the
+    whole sequence."""
+    if case["cmds"][i][0] == "hdrain" and impl == model and impl != spec:
+        return "D25"
+    return None
+
+
 def nontrivial(case, outs):
     sorted_slots = {}
     chained_tie = False
@@ -563,10 +695,38 @@ def features(case, outs):
     nix = sum(1 for c in case["cmds"] if c[0] == "ix")
     if nix > 200:
         f.append("mode:big")
+    hslot = {}          # handle -> [slot, how taken, what happened to the slot since]
+    failing = {}        # slot -> the resolver raises for some ids
     for c, o in zip(case["cmds"], outs):
         op = c[0]
         if op == "ix":
             continue
+        if op in ("hall", "hiter"):
+            how = "iter" if op == "hiter" else "all" if c[3] else "all(resolve=False)"
+            hslot[c[2]] = [c[1], how + ("/resolver" if rkind.get(c[1], "none") != "none" and how != "all(resolve=False)"
+                                         else "/ids"), kinds.get(c[1], "?"), []]
+            continue
+        if op in ("hdrain", "htake"):
+            h = hslot.get(c[1])
+            if h is not None and op == "hdrain":
+                b = set(h[3])
+                between = "nothing" if not b else "first/one/len-only" if b <= {"first", "one", "len"} else \
+                    "a-loop-over-it-already" if "loop" in b else "sort(+peeks)" if b <= {"first", "one", "len", "sort"} \
+                    else "consuming-calls"
+                f.append("handle:%s/%s/between:%s" % (h[1], h[2].replace("-used", ""), between))
+                f.append("handle:%s/%s" % (h[1], h[2].replace("-used", "")))
+                if "KeyError" in o:
+                    f.append("handle:loop-ended-by-KeyError")
+                h[3].append("loop")
+            continue
+        for h in hslot.values():
+            if h[0] == c[1] and op in ("first", "one", "len", "sort", "take", "iter", "all", "intersect"):
+                h[3].append(op)
+        if op in ("first", "one", "iter", "all", "take") and "KeyError" in o:
+            f.append("%s/%s/raised-KeyError" % (op, kinds.get(c[1], "?")))
+            failing[c[1]] = failing.get(c[1], 0) + 1
+        elif op in ("first", "one", "iter", "all", "take") and failing.get(c[1]):
+            f.append("%s/%s/after-a-KeyError-on-this-result" % (op, kinds.get(c[1], "?")))
         if op == "new":
             kinds[c[1]] = "stream" if c[2] in STREAM_KINDS else "coll"
             sizes[c[1]] = len(c) - 5
@@ -574,6 +734,8 @@ def features(case, outs):
             if len(c) > 5 or c[2] != "list":
                 f.append("new:%s%s" % (c[2], "/wrong-numids" if c[3] != "auto" else ""))
                 f.append("resolver:" + rkind[c[1]])
+                if "/" in str(c[4]):
+                    f.append("resolver:raises-for-some-ids")
             continue
         if op == "query":
             kinds[c[1]] = "coll"
@@ -632,4 +794,5 @@ def features(case, outs):
 
 
 def witnesses():
-    return []
+    return [("D25", {"session": "resultset", "cfg": [], "cmds": [
+        ["new", 0, "gen", "auto", "none", 3, 1, 2], ["hall", 0, 0, 1], ["first", 0, 1], ["hdrain", 0]]})]
